@@ -140,7 +140,10 @@ def hard_close(loop: asyncio.AbstractEventLoop, step_cap: int = 20000) -> int:
         tasks = [t for t in asyncio.all_tasks(loop) if not t.done()]
         for t in tasks:
             t._log_destroy_pending = False  # type: ignore[attr-defined]
-            t.cancel()
+            try:
+                t.cancel()
+            except RecursionError:
+                pass  # (a runaway program's chain of tasks awaiting tasks, deeper than the interpreter's recursion limit)
         if tasks and isinstance(loop, VLoop):
             loop.max_steps = loop.steps + step_cap
             loop._same_t = 0
